@@ -1,6 +1,43 @@
 use crate::models::TypeStructure;
 use std::collections::{HashMap, HashSet};
 
+/// Split a type-argument list at the commas that are not nested inside `<>`, `()` or `[]`.
+///
+/// `"HashMap<String, User>, String"` yields `["HashMap<String, User>", " String"]`.
+pub(crate) fn split_top_level_commas(inner: &str) -> Vec<&str> {
+    let mut parts = Vec::new();
+    let mut rest = inner;
+    loop {
+        let mut depth: i32 = 0;
+        let mut previous = ' ';
+        let mut comma = None;
+        for (i, ch) in rest.char_indices() {
+            match ch {
+                '<' | '(' | '[' => depth += 1,
+                // the '>' of a `->` (fn pointer return type) closes nothing
+                '>' if previous == '-' => {}
+                '>' | ')' | ']' => depth -= 1,
+                ',' if depth == 0 => {
+                    comma = Some(i);
+                    break;
+                }
+                _ => {}
+            }
+            previous = ch;
+        }
+        match comma.and_then(|pos| rest.split_at_checked(pos)) {
+            Some((head, tail)) => {
+                parts.push(head);
+                rest = tail.strip_prefix(',').unwrap_or(tail);
+            }
+            None => {
+                parts.push(rest);
+                return parts;
+            }
+        }
+    }
+}
+
 /// Type resolver for mapping Rust types to TypeScript types
 #[derive(Debug)]
 pub struct TypeResolver {
@@ -59,11 +96,11 @@ impl TypeResolver {
     fn extract_result_ok_type(&self, rust_type: &str) -> Option<String> {
         if rust_type.starts_with("Result<") && rust_type.ends_with('>') {
             let inner = &rust_type[7..rust_type.len() - 1];
-            if let Some(comma_pos) = inner.find(',') {
-                let ok_type = inner[..comma_pos].trim();
-                Some(ok_type.to_string())
-            } else {
-                Some(inner.to_string())
+            // The success type ends at the first comma that is not nested in its own arguments
+            let parts = split_top_level_commas(inner);
+            match parts.first() {
+                Some(ok_type) if parts.len() > 1 => Some(ok_type.trim().to_string()),
+                _ => Some(inner.to_string()),
             }
         } else {
             None
@@ -127,7 +164,10 @@ impl TypeResolver {
             if inner.trim().is_empty() {
                 return Some(vec![]);
             }
-            let types: Vec<String> = inner.split(',').map(|s| s.trim().to_string()).collect();
+            let types: Vec<String> = split_top_level_commas(inner)
+                .into_iter()
+                .map(|s| s.trim().to_string())
+                .collect();
             Some(types)
         } else {
             None
@@ -143,27 +183,14 @@ impl TypeResolver {
 
     /// Parse two type parameters separated by comma (for HashMap, BTreeMap)
     fn parse_two_type_params(&self, inner: &str) -> Option<(String, String)> {
-        let mut depth = 0;
-        let mut comma_pos = None;
-
-        for (i, ch) in inner.char_indices() {
-            match ch {
-                '<' => depth += 1,
-                '>' => depth -= 1,
-                ',' if depth == 0 => {
-                    comma_pos = Some(i);
-                    break;
-                }
-                _ => {}
+        let parts = split_top_level_commas(inner);
+        match (parts.first(), parts.get(1)) {
+            (Some(key_type), Some(_)) => {
+                // everything after the first top-level comma is the value type
+                let value_type = inner.get(key_type.len()..)?.strip_prefix(',')?;
+                Some((key_type.trim().to_string(), value_type.trim().to_string()))
             }
-        }
-
-        if let Some(pos) = comma_pos {
-            let key_type = inner[..pos].trim().to_string();
-            let value_type = inner[pos + 1..].trim().to_string();
-            Some((key_type, value_type))
-        } else {
-            None
+            _ => None,
         }
     }
 
